@@ -104,6 +104,22 @@ func c20Case(c *Ctx, ids []string, junk []string, walkSizes []int64) error {
 	for _, j := range junk {
 		w.Peer.Channels["tt"].State[j] = []byte("junk")
 	}
+	// records written by earlier releases are binary protobuf, not JSON: both readers accept either form,
+	// and after an upgrade a ledger holds both next to each other
+	if rng.Intn(2) == 0 {
+		for k, v := range w.Peer.Channels["tt"].State {
+			if !strings.HasPrefix(k, c20Prefix) || rng.Intn(3) == 0 {
+				continue
+			}
+			var tr fpb.CCTransfer
+			if err := jsonpbUnmarshal(v, &tr); err == nil {
+				if bin, err := proto.Marshal(&tr); err == nil && len(bin) > 0 {
+					w.Peer.Channels["tt"].State[k] = bin
+					c.Count("record_in_legacy_binary_form")
+				}
+			}
+		}
+	}
 	// ledger listing for the model
 	keys := make([]string, 0)
 	for k := range w.Peer.Channels["tt"].State {
@@ -117,6 +133,8 @@ func c20Case(c *Ctx, ids []string, junk []string, walkSizes []int64) error {
 		if strings.HasPrefix(k, "/transfer/") {
 			var tr fpb.CCTransfer
 			if err := jsonpbUnmarshal(w.Peer.Channels["tt"].State[k], &tr); err == nil {
+				id = tr.GetId()
+			} else if err := proto.Unmarshal(w.Peer.Channels["tt"].State[k], &tr); err == nil {
 				id = tr.GetId()
 			}
 		}
